@@ -1,0 +1,1 @@
+//! Verification hooks: `handshake` (thin pass-through wrappers; feature `verif-hooks` only).
